@@ -43,9 +43,10 @@ func c20BigBody(shape int, goos bool, n int) string {
 }
 
 func c20BigScenario(o *hx.Out, r *hx.Rng, extra int) error {
-	in := c20Input{Kind: "upload"}
-	if r.Bool() {
-		in.Pre = append(in.Pre, c20GenReq(r, 1))
+	in := c20Input{Kind: "upload", Light: true}
+	var herr error
+	if in.Pre, herr = c20GenHistory(r, r.Intn(3), ""); herr != nil {
+		return herr
 	}
 	user := r.Pick([]string{"", "user"})
 	big := c20Part{Kind: "file", Name: r.Pick([]string{"big.txt", ""})}
